@@ -20,7 +20,7 @@ def is_legacy_reframe(mut):
     return mut.startswith('tag 18 -> 9') or mut.startswith('downgrade')
 
 
-PIN_ONLY = ['IntegrityProtectedSKEDataV1.decrypt', 'IntegrityProtectedSKEDataV1.parse', 'PKESessionKeyV3.decrypt_sk', 'PKESessionKeyV3.parse',
+PIN_ONLY = ['IntegrityProtectedSKEDataV1.decrypt', 'IntegrityProtectedSKEDataV1.parse', 'PKESessionKeyV3.decrypt_sk', 'PKESessionKeyV3.parse', 'PKESessionKeyV3.pkalg_int', 'PKESessionKeyV3.__bytearray__',
             'SKESessionKeyV4.decrypt_sk', 'SKESessionKeyV4.parse', 'ECDHCipherText.decrypt', 'ECDHCipherText.parse', 'ECPoint.__init__',
             'PGPMessage.decrypt', 'PGPKey.decrypt', 'symenc._decrypt']
 
@@ -235,6 +235,46 @@ def structural(ctx, sw, w, label, raw, recips, inner, want, alg, other=None):
                 ctx.fail('structural', 'session key packets without an encrypted data packet are not refused with PGPError',
                          {'op': 'fault', 'suite': 'structural', 'msg': label, 'mutation': mu[0], 'recipient': list(r), 'blob': mu[1].hex(), 'want': None,
                           'expect_exc': 'PGPError', 'impl': repr(o)[:120]})
+
+
+# public-key algorithm ids written over the algorithm octet of every PKESK: not in PubKeyAlgorithm (private / experimental / reserved),
+# listed without a ciphertext class, listed with one (the fields are then read under another algorithm's layout)
+ALG_UNLISTED = [100, 110, 26, 50, 82, 4, 23, 255]
+ALG_NO_CLASS = [17, 19, 22, 21, 3, 0]
+ALG_CLASS = [1, 2, 16, 20, 18]
+
+
+def pkesk_algorithm(ctx, sw, w, label, raw, recips, inner, want):
+    """the algorithm octet of each public-key session key packet set to every kind of other id.  An id PGPy has no ciphertext class
+    for (unlisted or listed) makes the packet someone else's: it is kept as received (the message is exported octet for octet), the
+    passphrase recipients still get exactly the original plaintext, the key it was addressed to is refused; every outcome is compared
+    with the model gate and with the direct oracle (raise, or the original plaintext) by Sweep.one"""
+    for p in walk(raw):
+        if p[0] != 1:
+            continue
+        off = p[2] + 9            # version octet, eight octets of key id
+        for a in ALG_UNLISTED + ALG_NO_CLASS + ALG_CLASS:
+            if a == raw[off]:
+                continue
+            blob = raw[:off] + bytes([a]) + raw[off + 1:]
+            mut = 'PKESK at %d: algorithm octet %d -> %d' % (p[1], raw[off], a)
+            opaque = a not in ALG_CLASS
+            case = {'op': 'fault', 'suite': 'pkesk-algorithm', 'msg': label, 'mutation': mut, 'blob': blob.hex(), 'want': want}
+            if opaque:
+                with warnings.catch_warnings():
+                    warnings.simplefilter('ignore')
+                    rex = outcome(lambda: bytes(w.pgpy.PGPMessage.from_blob(blob)))
+                if rex != ('ok', blob):
+                    ctx.fail('pkesk-algorithm', 'a session key packet of an algorithm without ciphertext class is not kept as it was received',
+                             dict(case, recipient=list(recips[0]), reexport=True, impl=(rex[1].hex() if rex[0] == 'ok' else repr(rex))[:300]))
+            for r in recips:
+                o = sw.one('pkesk-algorithm', label, mut, blob, r, inner, want)
+                if opaque and r[0] == 'P' and o != ('ok', want):
+                    ctx.fail('pkesk-algorithm', 'a session key packet of an unusable algorithm keeps a passphrase recipient from the message',
+                             dict(case, recipient=list(r), must_decrypt=True, impl=repr(o)[:200]))
+                if opaque and r[0] == 'K' and len([q for q in walk(raw) if q[0] == 1]) == 1 and o[0] != 'raise':
+                    ctx.fail('pkesk-algorithm', 'a key decrypted through a session key packet that no longer names its algorithm',
+                             dict(case, recipient=list(r), want=None, impl=repr(o)[:200]))
 
 
 def keyed_gate(ctx, sw, w, label, raw, recips, inner, want, alg, sk):
@@ -473,6 +513,7 @@ def run(ctx):
                     ctx.fail('unmodified', 'unmodified message does not decrypt', {'op': 'fault', 'blob': raw.hex(), 'recipient': list(r), 'want': want})
             slow = any(r[0] == 'K' and r[1].startswith('rsa') for r in recips)
             pk = walk(raw)
+            pkesk_algorithm(ctx, sw, w, label, raw, recips, inner, want)
             if ctx.quick and 'sampled' in label:
                 esks = [p for p in pk if p[0] in (1, 3)]
                 pos = sorted(set([i for p in pk for i in range(p[1], p[2] + 2)] + list(range(0, len(raw), 5))))
@@ -551,7 +592,13 @@ def replay(ctx, case):
             steps = [(k, bytes.fromhex(v) if isb else v) for k, v, isb in case['steps']]
             outs = run_history(w, bytes.fromhex(case['blob']), steps)
             return history_bad(outs, steps, {tuple(x) for x in case['rights']}, case['want']) is not None
+        if case.get('reexport'):
+            with warnings.catch_warnings():
+                warnings.simplefilter('ignore')
+                return outcome(lambda: bytes(w.pgpy.PGPMessage.from_blob(bytes.fromhex(case['blob'])))) != ('ok', bytes.fromhex(case['blob']))
         o = w.impl_decrypt(bytes.fromhex(case['blob']), tuple(case['recipient']))
+        if case.get('must_decrypt'):
+            return o != ('ok', case['want'])
         if case.get('expect_exc'):
             return o[:2] != ('raise', case['expect_exc'])
         if o[0] == 'raise':
